@@ -146,7 +146,8 @@ func (ex *Exec) sliceOp(st *State, in *ssa.Slice, pos string) Val {
 			rs := p.ArraySort(IntSort, p.ArraySort(IntSort, IntSort))
 			r := ex.getRegion(st, name, rs)
 			st.heap[name] = p.Store(r, ref, ex.bytesOfAbstract(h))
-			ex.assumptions["slice of a hash/address value is modelled as a copy of its bytes (writes through the slice are not reflected back)"] = true
+			ex.sliceOrigin[ref] = ptr
+			ex.assumptions["slice of a hash/address value is modelled as a copy of its bytes; only copy() through the whole slice is written back"] = true
 			return p.Mk(ex.tm.SliceS, ref, lo, p.Sub(hi, lo), p.Sub(n, lo))
 		}
 		n := p.Int(arr.Len())
@@ -397,6 +398,12 @@ func (ex *Exec) setResult(st *State, instr *ssa.Call, v Val) {
 func (ex *Exec) freshResults(st *State, sig *types.Signature, hint string) Val {
 	res := sig.Results()
 	mk := func(t types.Type, i int) *Term {
+		if _, isSlice := t.Underlying().(*types.Slice); isSlice {
+			nm := fmt.Sprintf("ret:%s.%d", hint, i)
+			v := ex.p.Mk(ex.tm.SliceS, ex.p.Fresh(nm+".ref", IntSort), ex.p.Fresh(nm+".off", IntSort), ex.p.Fresh(nm+".len", IntSort), ex.p.Fresh(nm+".cap", IntSort))
+			ex.facts = append(ex.facts, ex.tm.InRange(v, t, 0))
+			return v
+		}
 		v := ex.p.Fresh(fmt.Sprintf("ret:%s.%d", hint, i), ex.tm.SortOf(t))
 		ex.facts = append(ex.facts, ex.tm.InRange(v, t, 0))
 		return v
@@ -434,6 +441,12 @@ func (ex *Exec) doCall(fr *frame, st *State, cc *ssa.CallCommon, fnv Val, args [
 		rt, err := ex.ptrTerm(recv)
 		if err != nil {
 			ex.fail("%v", err)
+		}
+		if ex.topC != nil && ex.topC.NoCalls && ex.noOblige == 0 && !ex.isOpaqueInvoke(cc) {
+			ex.oblige(st, "call.unreachable", "call to "+ifaceKey(cc)+" must not be reached", ex.p.False(), pos)
+			ex.havocAllQuiet(st)
+			ex.setResult(st, instr, ex.freshResults(st, cc.Signature(), cc.Method.Name()))
+			return
 		}
 		if c := ex.ifaceContract(cc); c != nil {
 			names := c.Params
@@ -535,6 +548,20 @@ func (ex *Exec) doCall(fr *frame, st *State, cc *ssa.CallCommon, fnv Val, args [
 // callKnown dispatches a call whose target function is known.
 func (ex *Exec) callKnown(fr *frame, st *State, cc *ssa.CallCommon, callee *ssa.Function, bind []Val, args []Val, pos string, setRes func(Val)) {
 	c := ex.P.ContractFor(callee)
+	if ex.topC != nil && ex.topC.NoCalls && ex.noOblige == 0 && !(ex.isOpaqueFn(callee) && c == nil) {
+		allowed := callee.Synthetic != ""
+		for _, a := range ex.topC.Allow {
+			if callee.Name() == a {
+				allowed = true
+			}
+		}
+		if !allowed {
+			ex.oblige(st, "call.unreachable", "call to "+ex.fnName(callee)+" must not be reached", ex.p.False(), pos)
+			setRes(ex.freshResults(st, callee.Signature, callee.Name()))
+			ex.havocAllQuiet(st)
+			return
+		}
+	}
 	switch {
 	case c != nil && !c.Inline:
 		names, ptypes := sigNames(callee, c)
@@ -561,6 +588,13 @@ func (ex *Exec) callKnown(fr *frame, st *State, cc *ssa.CallCommon, callee *ssa.
 // errFresh: a freshly created error is none of the sentinels (unless wrapping, which isErr handles separately).
 func (ex *Exec) errFresh(st *State, e *Term) {
 	ex.freshErrs = append(ex.freshErrs, e)
+}
+
+func (ex *Exec) havocAllQuiet(st *State) {
+	ex.havocAll(st)
+	for k, v := range st.ghost {
+		st.ghost[k] = ex.p.Fresh("ghost:"+k, v.Sort)
+	}
 }
 
 func (ex *Exec) havocCall(st *State, pos, what string) {
@@ -716,8 +750,7 @@ func (ex *Exec) contractCall(fr *frame, st *State, c *FuncContract, name string,
 		} else {
 			res = ex.freshResults(st, sig, name)
 		}
-		ex.assumeEnsures(ctx, st, nil, c, sig, res)
-		return res
+		return ex.assumeEnsures(ctx, st, nil, c, sig, res)
 	}
 	pre := st.fork()
 	// havoc the frame
@@ -732,11 +765,10 @@ func (ex *Exec) contractCall(fr *frame, st *State, c *FuncContract, name string,
 		st.heapTop = nt
 	}
 	res := ex.freshResults(st, sig, name)
-	ex.assumeEnsures(ctx, st, pre, c, sig, res)
-	return res
+	return ex.assumeEnsures(ctx, st, pre, c, sig, res)
 }
 
-func (ex *Exec) assumeEnsures(ctx *EvalCtx, st, pre *State, c *FuncContract, sig *types.Signature, res Val) {
+func (ex *Exec) assumeEnsures(ctx *EvalCtx, st, pre *State, c *FuncContract, sig *types.Signature, res Val) Val {
 	p := ex.p
 	post := &EvalCtx{ex: ex, st: st, old: pre, vars: map[string]tv{}, pkgPath: ctx.pkgPath}
 	for k, v := range ctx.vars {
@@ -767,13 +799,213 @@ func (ex *Exec) assumeEnsures(ctx *EvalCtx, st, pre *State, c *FuncContract, sig
 			ex.pointerBound(st, t, sig.Results().At(i).Type())
 		}
 	}
-	for _, e := range c.Ensures {
-		t := ex.evalBool(post, e)
-		if ctx.guard != nil {
-			t = p.Implies(ctx.guard, t)
+	evalAll := func() []*Term {
+		var terms []*Term
+		for _, e := range c.Ensures {
+			t := ex.evalBool(post, e)
+			if ctx.guard != nil {
+				t = p.Implies(ctx.guard, t)
+			}
+			terms = append(terms, t)
 		}
+		return terms
+	}
+	if ctx.guard != nil || ex.noOblige > 0 {
+		for _, t := range evalAll() {
+			ex.assume(st, t)
+		}
+		return res
+	}
+	// phase 1: evaluate once only to discover equations that define parts of the fresh result
+	nf := len(ex.facts)
+	shiftKeys := map[string]bool{}
+	for k := range ex.shiftCache {
+		shiftKeys[k] = true
+	}
+	terms := evalAll()
+	// Postconditions that pin a fresh result down are applied as definitions rather than kept as equations:
+	//   result-part == term      → substitute
+	//   fresh(ref) && region[ref] == value → region := store(region, ref, value)   (ref becomes an allocation constant)
+	// This keeps later select-over-store terms syntactically reducible. It is an equivalence-preserving rewriting.
+	freshSet := map[*Term]bool{}
+	var collect func(v Val)
+	collect = func(v Val) {
+		switch x := v.(type) {
+		case *Term:
+			if x.Op == "const" && strings.HasPrefix(x.Name, "ret:") {
+				freshSet[x] = true
+			}
+			if x.Op == "mk" {
+				for _, a := range x.Args {
+					collect(a)
+				}
+			}
+		case TupleV:
+			for _, a := range x {
+				collect(a)
+			}
+		}
+	}
+	collect(res)
+	var conj []*Term
+	for _, t := range terms {
+		conj = append(conj, conjuncts(t)...)
+	}
+	subst := map[*Term]*Term{}
+	contains := func(t, x *Term) bool {
+		found := false
+		seen := map[int]bool{}
+		var rec func(t *Term)
+		rec = func(t *Term) {
+			if found || seen[t.id] {
+				return
+			}
+			seen[t.id] = true
+			if t == x {
+				found = true
+				return
+			}
+			for _, a := range t.Args {
+				rec(a)
+			}
+		}
+		rec(t)
+		return found
+	}
+	var keep []*Term
+	for _, cj := range conj {
+		if cj.Op == "=" {
+			a, b := cj.Args[0], cj.Args[1]
+			if freshSet[a] && subst[a] == nil && !contains(b, a) {
+				subst[a] = b
+				continue
+			}
+			if freshSet[b] && subst[b] == nil && !contains(a, b) {
+				subst[b] = a
+				continue
+			}
+		}
+		if freshSet[cj] && cj.Sort.Kind == SBool && subst[cj] == nil {
+			subst[cj] = p.True()
+			continue
+		}
+		if cj.Op == "not" && freshSet[cj.Args[0]] && subst[cj.Args[0]] == nil {
+			subst[cj.Args[0]] = p.False()
+			continue
+		}
+		keep = append(keep, cj)
+	}
+	// close the substitution (right-hand sides may mention other substituted constants)
+	if len(subst) > 0 {
+		for i := 0; i < 4; i++ {
+			changed := false
+			for k, v := range subst {
+				nv := p.Subst(v, subst)
+				if nv != v && !contains(nv, k) {
+					subst[k] = nv
+					changed = true
+				}
+			}
+			if !changed {
+				break
+			}
+		}
+		res = ex.substVal(res, subst)
+		for k, v := range st.heap {
+			st.heap[k] = p.Subst(v, subst)
+		}
+		for k, v := range st.ghost {
+			st.ghost[k] = p.Subst(v, subst)
+		}
+		// phase 2: forget the side effects of phase 1 and evaluate again with the pinned result
+		ex.facts = ex.facts[:nf]
+		for k := range ex.shiftCache {
+			if !shiftKeys[k] {
+				delete(ex.shiftCache, k)
+			}
+		}
+		bindResults2(post.vars, sig, res)
+		keep = nil
+		for _, t := range evalAll() {
+			for _, cj := range conjuncts(t) {
+				if !cj.IsTrue() {
+					keep = append(keep, cj)
+				}
+			}
+		}
+	}
+	// allocation constants: result references declared fresh by the contract
+	if pre != nil {
+		for _, cj := range keep {
+			if cj.Op == "<=" && cj.Args[0] == pre.heapTop && cj.Args[1].Op == "const" && strings.HasPrefix(cj.Args[1].Name, "ret:") {
+				if _, done := ex.allocOrder[cj.Args[1]]; !done {
+					ex.allocN++
+					ex.allocOrder[cj.Args[1]] = ex.allocN
+				}
+			}
+		}
+		var keep2 []*Term
+		for _, cj := range keep {
+			applied := false
+			if cj.Op == "=" {
+				for side := 0; side < 2 && !applied; side++ {
+					sel, val := cj.Args[side], cj.Args[1-side]
+					if sel.Op != "select" {
+						continue
+					}
+					ref := sel.Args[1]
+					if _, isAlloc := ex.allocOrder[ref]; !isAlloc || contains(val, sel.Args[0]) {
+						continue
+					}
+					for name, cur := range st.heap {
+						if cur == sel.Args[0] {
+							st.heap[name] = p.Store(cur, ref, val)
+							applied = true
+							break
+						}
+					}
+				}
+			}
+			if !applied {
+				keep2 = append(keep2, cj)
+			}
+		}
+		keep = keep2
+	}
+	for _, t := range keep {
 		ex.assume(st, t)
 	}
+	return res
+}
+
+func (ex *Exec) substVal(v Val, m map[*Term]*Term) Val {
+	switch x := v.(type) {
+	case *Term:
+		return ex.p.Subst(x, m)
+	case TupleV:
+		out := make(TupleV, len(x))
+		for i, a := range x {
+			out[i] = ex.substVal(a, m)
+		}
+		return out
+	}
+	return v
+}
+
+// bindResults2 rebinds result names unconditionally (after the result value was refined).
+func bindResults2(vars map[string]tv, sig *types.Signature, res Val) {
+	rs := sig.Results()
+	for i := 0; i < rs.Len(); i++ {
+		if n := rs.At(i).Name(); n != "" && n != "_" {
+			if old, ok := vars[n]; ok {
+				if r0, ok2 := vars[fmt.Sprintf("result%d", i)]; ok2 && old.v == r0.v {
+					delete(vars, n)
+				}
+			}
+		}
+	}
+	delete(vars, "result")
+	bindResults(vars, sig, res)
 }
 
 func bindResults(vars map[string]tv, sig *types.Signature, res Val) {
@@ -876,6 +1108,11 @@ func (ex *Exec) frameCheck(st *State, region string, ref *Term, pos string) {
 		return
 	}
 	p := ex.p
+	if ref != nil {
+		if _, isAlloc := ex.allocOrder[ref]; isAlloc {
+			return // allocated by this very execution: fresh by construction
+		}
+	}
 	var alts []*Term
 	if ref != nil {
 		alts = append(alts, p.Ge(ref, ex.heapTop0))
@@ -1047,6 +1284,29 @@ func (ex *Exec) copyOp(st *State, cc *ssa.CallCommon, args []Val, pos string) Va
 		p.Ite(p.And(p.Le(off, i), p.Lt(i, p.Add(off, n))), p.Select(sseq, p.Sub(i, off)), p.Select(dArr, i))), []*Term{p.Select(nArr, i)}))
 	st.heap[name] = p.Ite(p.Eq(p.Acc(dst, 0), p.Int(0)), r, p.Store(r, p.Acc(dst, 0), nArr))
 	ex.frameCheck(st, name, p.Acc(dst, 0), pos)
+	if origin, ok := ex.sliceOrigin[p.Acc(dst, 0)]; ok {
+		// write-through: the destination is the byte view of a hash/address variable
+		var back *Term
+		ot := origin.rootOrStepType()
+		width := int64(32)
+		fname, rs := "hashOf", ex.tm.HashS
+		if isAddrType(ot) {
+			width, fname, rs = 20, "addrOf", ex.tm.AddrS
+		}
+		if isHashType(ot) || isAddrType(ot) {
+			g := p.Func(fname, []*Sort{p.ArraySort(IntSort, IntSort)}, rs)
+			back = p.App(g, nArr)
+			// whole-value copy from a source that is at least as long: the new value is exactly the source's bytes
+			if off := p.Acc(dst, 1); off.Op == "int" && off.Int.Sign() == 0 {
+				if dl := p.Acc(dst, 2); dl.Op == "int" && dl.Int.Int64() == width {
+					back = p.Ite(p.Ge(p.Acc(src, 2), p.Int(width)), p.App(g, sseq), back)
+				}
+			}
+		}
+		if back != nil {
+			ex.store(st, origin, back, pos)
+		}
+	}
 	return n
 }
 
